@@ -10,6 +10,12 @@
 (* run_expiry on the joined data and expiry columns, None where a key is missing); the          *)
 (* invariants compare it with the law level of Perdictable.tla.                                 *)
 (* Generator configurations (NEXT Gen) print every configuration with what the spec accepts.    *)
+(* Spelling of keys (Perdictable.tla): a size with a sixth component S > 1 additionally enumerates *)
+(* how the tables of the call - the inputs, the previously computed values, the expiries - SPELL  *)
+(* their keys: every table that holds keys is put into one of at most S classes; tables of one   *)
+(* class hold the very same objects as keys, tables of different classes hold different objects   *)
+(* (of any type) denoting the same keys.  Classes are enumerated up to renaming (restricted      *)
+(* growth), tables without keys are in class 0.                                                   *)
 EXTENDS Perdictable, Json
 CONSTANTS Sizes     \* set of <<n, K, nk, cache, values>>: inputs, keys, key columns, enumerate cached values /
                     \* expiries ("yes"/"no"; "scalar": one expiry value for all rows), values: "distinct" | "same" (every cell, scalar and default is the same
@@ -19,20 +25,25 @@ CONSTANTS Sizes     \* set of <<n, K, nk, cache, values>>: inputs, keys, key col
                     \* outside the quantifier ("expiry to previously computed keys"); configuration `beyond`
                     \* documents that there the code's gating leaves such rows uncomputed (ComputedRows fails).
 
+\* a size may have a sixth component: the number of spelling classes of the tables (1 when it is missing)
+NSp(sz) == IF Len(sz) >= 6 THEN sz[6] ELSE 1
+
 \* the size sets of the configuration files (a .cfg cannot write tuples): <<n, K, nk, cache, values>>
-SZ_quick == {<<1, 3, 1, "yes", "distinct">>, <<2, 2, 1, "yes", "distinct">>, <<2, 3, 1, "no", "distinct">>, <<3, 3, 1, "no", "distinct">>, <<1, 3, 2, "yes", "distinct">>, <<2, 2, 2, "yes", "distinct">>, <<2, 3, 2, "no", "distinct">>, <<1, 3, 1, "yes", "same">>, <<2, 2, 1, "yes", "same">>, <<1, 3, 1, "yes", "pairs">>, <<1, 3, 1, "scalar", "distinct">>, <<2, 2, 2, "scalar", "distinct">>, <<1, 2, 1, "no", "seq0">>, <<1, 2, 1, "no", "seq2">>, <<2, 2, 1, "no", "seq0">>, <<2, 2, 1, "no", "seq1">>, <<2, 3, 1, "no", "seq2">>, <<2, 3, 1, "no", "seq3">>, <<2, 2, 2, "no", "seq2">>}
+SZ_quick == {<<1, 3, 1, "yes", "distinct">>, <<2, 2, 1, "yes", "distinct">>, <<2, 3, 1, "no", "distinct">>, <<3, 3, 1, "no", "distinct">>, <<1, 3, 2, "yes", "distinct">>, <<2, 2, 2, "yes", "distinct">>, <<2, 3, 2, "no", "distinct">>, <<1, 3, 1, "yes", "same">>, <<2, 2, 1, "yes", "same">>, <<1, 3, 1, "yes", "pairs">>, <<1, 3, 1, "scalar", "distinct">>, <<2, 2, 2, "scalar", "distinct">>, <<1, 2, 1, "no", "seq0">>, <<1, 2, 1, "no", "seq2">>, <<2, 2, 1, "no", "seq0">>, <<2, 2, 1, "no", "seq1">>, <<2, 3, 1, "no", "seq2">>, <<2, 3, 1, "no", "seq3">>, <<2, 2, 2, "no", "seq2">>, <<1, 2, 1, "yes", "distinct", 2>>, <<2, 2, 2, "no", "distinct", 2>>}
 SZ_thorough == {<<1, 3, 1, "yes", "distinct">>, <<2, 3, 1, "yes", "distinct">>, <<3, 2, 1, "yes", "distinct">>, <<3, 3, 1, "no", "distinct">>, <<4, 3, 1, "no", "distinct">>}
-SZ_thorough2 == {<<1, 3, 2, "yes", "distinct">>, <<2, 3, 2, "yes", "distinct">>, <<3, 2, 2, "yes", "distinct">>, <<3, 3, 2, "no", "distinct">>, <<1, 3, 1, "yes", "same">>, <<2, 3, 1, "yes", "same">>, <<3, 2, 1, "yes", "same">>, <<1, 3, 1, "yes", "pairs">>, <<2, 3, 2, "yes", "pairs">>, <<1, 3, 1, "scalar", "distinct">>, <<2, 3, 2, "scalar", "distinct">>, <<3, 2, 1, "scalar", "distinct">>, <<1, 3, 1, "no", "seq0">>, <<1, 3, 1, "no", "seq1">>, <<1, 3, 1, "no", "seq2">>, <<1, 3, 1, "no", "seq3">>, <<1, 3, 2, "no", "seq0">>, <<1, 3, 2, "no", "seq1">>, <<1, 3, 2, "no", "seq2">>, <<1, 3, 2, "no", "seq3">>, <<2, 3, 1, "no", "seq0">>, <<2, 3, 1, "no", "seq1">>, <<2, 3, 1, "no", "seq2">>, <<2, 3, 1, "no", "seq3">>, <<2, 3, 2, "no", "seq0">>, <<2, 3, 2, "no", "seq1">>, <<2, 3, 2, "no", "seq2">>, <<2, 3, 2, "no", "seq3">>, <<3, 3, 1, "no", "seq0">>, <<3, 3, 1, "no", "seq1">>, <<3, 3, 1, "no", "seq2">>, <<3, 3, 1, "no", "seq3">>}
+SZ_thorough2 == {<<1, 3, 2, "yes", "distinct">>, <<2, 3, 2, "yes", "distinct">>, <<3, 2, 2, "yes", "distinct">>, <<3, 3, 2, "no", "distinct">>, <<1, 3, 1, "yes", "same">>, <<2, 3, 1, "yes", "same">>, <<3, 2, 1, "yes", "same">>, <<1, 3, 1, "yes", "pairs">>, <<2, 3, 2, "yes", "pairs">>, <<1, 3, 1, "scalar", "distinct">>, <<2, 3, 2, "scalar", "distinct">>, <<3, 2, 1, "scalar", "distinct">>, <<1, 3, 1, "no", "seq0">>, <<1, 3, 1, "no", "seq1">>, <<1, 3, 1, "no", "seq2">>, <<1, 3, 1, "no", "seq3">>, <<1, 3, 2, "no", "seq0">>, <<1, 3, 2, "no", "seq1">>, <<1, 3, 2, "no", "seq2">>, <<1, 3, 2, "no", "seq3">>, <<2, 3, 1, "no", "seq0">>, <<2, 3, 1, "no", "seq1">>, <<2, 3, 1, "no", "seq2">>, <<2, 3, 1, "no", "seq3">>, <<2, 3, 2, "no", "seq0">>, <<2, 3, 2, "no", "seq1">>, <<2, 3, 2, "no", "seq2">>, <<2, 3, 2, "no", "seq3">>, <<3, 3, 1, "no", "seq0">>, <<3, 3, 1, "no", "seq1">>, <<3, 3, 1, "no", "seq2">>, <<3, 3, 1, "no", "seq3">>, <<1, 3, 1, "yes", "distinct", 3>>, <<2, 2, 1, "yes", "distinct", 2>>, <<3, 2, 2, "no", "distinct", 3>>, <<1, 2, 2, "scalar", "distinct", 2>>}
 SZ_beyond == {<<1, 2, 1, "beyond", "distinct">>}
 SZ_gen_quick == {<<1, 3, 1, "yes", "distinct">>, <<2, 2, 1, "yes", "distinct">>, <<2, 3, 1, "no", "distinct">>, <<3, 3, 1, "no", "distinct">>, <<1, 3, 2, "yes", "distinct">>, <<2, 2, 2, "yes", "distinct">>, <<2, 3, 2, "no", "distinct">>, <<2, 2, 1, "yes", "same">>, <<1, 3, 1, "yes", "pairs">>, <<1, 3, 1, "scalar", "distinct">>, <<2, 2, 2, "scalar", "distinct">>, <<1, 2, 1, "no", "seq0">>, <<1, 2, 1, "no", "seq2">>, <<2, 2, 1, "no", "seq0">>, <<2, 2, 1, "no", "seq1">>, <<2, 3, 1, "no", "seq2">>, <<2, 3, 1, "no", "seq3">>, <<2, 2, 2, "no", "seq2">>}
+SZ_gen_spell_quick == {<<2, 2, 1, "no", "distinct", 2>>, <<2, 2, 2, "no", "distinct", 2>>, <<1, 2, 1, "yes", "distinct", 3>>, <<2, 1, 1, "yes", "distinct", 3>>, <<1, 2, 2, "scalar", "distinct", 2>>}
+SZ_gen_spell == {<<1, 3, 1, "yes", "distinct", 3>>, <<2, 2, 1, "yes", "distinct", 3>>, <<2, 2, 2, "yes", "distinct", 2>>, <<3, 2, 1, "no", "distinct", 3>>, <<3, 3, 2, "no", "distinct", 2>>, <<2, 2, 1, "yes", "same", 2>>, <<2, 2, 1, "scalar", "distinct", 3>>}
 SZ_gen_join == {<<1, 3, 1, "no", "distinct">>, <<2, 3, 1, "no", "distinct">>, <<3, 3, 1, "no", "distinct">>, <<1, 3, 2, "no", "distinct">>, <<2, 3, 2, "no", "distinct">>, <<3, 3, 2, "no", "distinct">>}
 SZ_gen_join4 == {<<4, 3, 1, "no", "distinct">>}
 SZ_gen_cache == {<<1, 3, 1, "yes", "distinct">>, <<2, 3, 1, "yes", "distinct">>, <<3, 2, 1, "yes", "distinct">>}
 SZ_gen_cache2 == {<<1, 3, 2, "yes", "distinct">>, <<2, 3, 2, "yes", "distinct">>, <<3, 2, 2, "yes", "distinct">>}
 SZ_gen_values == {<<1, 3, 1, "yes", "same">>, <<2, 3, 1, "yes", "same">>, <<3, 2, 2, "yes", "same">>, <<1, 3, 1, "yes", "pairs">>, <<2, 2, 1, "yes", "pairs">>, <<2, 2, 2, "yes", "pairs">>, <<1, 3, 1, "scalar", "distinct">>, <<2, 3, 2, "scalar", "distinct">>, <<3, 2, 1, "scalar", "distinct">>, <<1, 3, 1, "no", "seq0">>, <<1, 3, 1, "no", "seq1">>, <<1, 3, 1, "no", "seq2">>, <<1, 3, 1, "no", "seq3">>, <<1, 3, 2, "no", "seq0">>, <<1, 3, 2, "no", "seq1">>, <<1, 3, 2, "no", "seq2">>, <<1, 3, 2, "no", "seq3">>, <<2, 3, 1, "no", "seq0">>, <<2, 3, 1, "no", "seq1">>, <<2, 3, 1, "no", "seq2">>, <<2, 3, 1, "no", "seq3">>, <<2, 3, 2, "no", "seq0">>, <<2, 3, 2, "no", "seq1">>, <<2, 3, 2, "no", "seq2">>, <<2, 3, 2, "no", "seq3">>, <<3, 3, 1, "no", "seq0">>, <<3, 3, 1, "no", "seq1">>, <<3, 3, 1, "no", "seq2">>, <<3, 3, 1, "no", "seq3">>}
 
-VARIABLES size, shape, dflt, cache, sexp, C, todo, out, calls, ncall, phase
-vars == <<size, shape, dflt, cache, sexp, C, todo, out, calls, ncall, phase>>
+VARIABLES size, shape, dflt, cache, sexp, spell, C, todo, out, calls, ncall, phase
+vars == <<size, shape, dflt, cache, sexp, spell, C, todo, out, calls, ncall, phase>>
 
 NK   == size[3]
 Same == size[5] = "same"
@@ -68,28 +79,42 @@ MkIn(i, sh) == IF sh.t THEN [kind |-> "keyed", v |-> None, map |-> [k \in sh.ks 
 CachedKeys(ch) == {k \in DOMAIN ch : ch[k] \notin {"nc", "ncpast"}}
 ExpKeys(ch)    == {k \in DOMAIN ch : ch[k] \in {"past", "future", "none", "ncpast"}}
 ExpVal(s)      == CASE s \in {"past", "ncpast"} -> PastD [] s = "future" -> FutureD [] s = "none" -> None
-MkCfg(sh, df, ch, sx) ==
+MkBase(sh, df, ch, sx) ==
     [ins    |-> [i \in DOMAIN sh |-> MkIn(i, sh[i])],
      defs   |-> [i \in DOMAIN sh |-> IF df[i] THEN <<Dflt(i)>> ELSE <<>>],
      data   |-> IF CachedKeys(ch) = {} THEN <<>> ELSE <<[k \in CachedKeys(ch) |-> Old(k)]>>,
      expiry |-> IF sx # "no" THEN <<"scalar", ExpVal(sx)>> ELSE IF ExpKeys(ch) = {} THEN <<>> ELSE <<[k \in ExpKeys(ch) |-> ExpVal(ch[k])]>>,
      today  |-> Today]
+\* sp[t] = the spelling class of table t: all its keys are spelt by the objects of that class
+MkCfg(sh, df, ch, sx, sp) ==
+    LET b == MkBase(sh, df, ch, sx) IN
+    [ins |-> b.ins, defs |-> b.defs, data |-> b.data, expiry |-> b.expiry, today |-> b.today,
+     spell |-> [t \in 1..(Len(sh) + 2) |-> [k \in TableKeys(b, t) |-> sp[t]]]]
+\* the spelling classes, up to renaming: a table without keys is in class 0, the first table with keys too, and every
+\* further one is in a class already used or in the next new one
+CanonSpell(b, sp, S) ==
+    \A t \in DOMAIN sp :
+        IF TableKeys(b, t) = {} THEN sp[t] = 0
+        ELSE LET before == {sp[u] : u \in {u \in 1..(t - 1) : TableKeys(b, u) # {}}} IN
+             sp[t] < S /\ sp[t] <= Cardinality(before) /\ (sp[t] > 0 => (sp[t] - 1) \in before)
 
 Init == /\ size \in Sizes
         /\ shape \in [1..size[1] -> ShapeU(size)] /\ dflt \in [1..size[1] -> BOOLEAN]
         /\ cache \in [KeysOf(size) -> Status(size)]
         /\ sexp \in ScalarExp(size)
+        /\ spell \in [1..(size[1] + 2) -> 0..(NSp(size) - 1)]
+        /\ CanonSpell(MkBase(shape, dflt, cache, sexp), spell, NSp(size))
         /\ C = <<>> /\ todo = {} /\ out = <<>> /\ calls = <<>> /\ ncall = <<>>
         /\ phase = "new"
 \* the call is made (only inside the quantifier's domain): the rows to evaluate are those of the join
 Start == /\ phase = "new"
-         /\ LET c == MkCfg(shape, dflt, cache, sexp) IN
-              /\ InDomain(c) \/ (Beyond(size) /\ InDomain([c EXCEPT !.expiry = <<>>]))
+         /\ LET c == MkCfg(shape, dflt, cache, sexp, spell) IN
+              /\ InDomain(c) \/ (Beyond(size) /\ InDomain(Plain([c EXCEPT !.expiry = <<>>])))
               /\ C' = c
               /\ todo' = JoinKeys(c)
               /\ ncall' = [k \in JoinKeys(c) |-> 0]
          /\ phase' = "fresh"
-         /\ UNCHANGED <<size, shape, dflt, cache, sexp, out, calls>>
+         /\ UNCHANGED <<size, shape, dflt, cache, sexp, spell, out, calls>>
 
 \* the code's gating of one row: the joined `data` / `expiry` cells (None where the key is missing)
 MechExpiry(c, k) == IF HasExpiry(c, k) THEN ExpiryAt(c, k) ELSE None      \* a scalar expiry is a constant column
@@ -103,17 +128,17 @@ Keep(k) == /\ Running /\ k \in todo /\ ~MechRuns(C, k)
            /\ out' = (k :> MechCache(C, k)) @@ out
            /\ todo' = todo \ {k}
            /\ phase' = "eval"
-           /\ UNCHANGED <<size, shape, dflt, cache, sexp, C, calls, ncall>>
+           /\ UNCHANGED <<size, shape, dflt, cache, sexp, spell, C, calls, ncall>>
 Call(k) == /\ Running /\ k \in todo /\ MechRuns(C, k)
            /\ calls' = Append(calls, Args(C, k))
            /\ ncall' = [ncall EXCEPT ![k] = @ + 1]
            /\ out' = (k :> F(Args(C, k))) @@ out
            /\ todo' = todo \ {k}
            /\ phase' = "eval"
-           /\ UNCHANGED <<size, shape, dflt, cache, sexp, C>>
+           /\ UNCHANGED <<size, shape, dflt, cache, sexp, spell, C>>
 Finish == /\ Running /\ todo = {}
           /\ phase' = "done"
-          /\ UNCHANGED <<size, shape, dflt, cache, sexp, C, todo, out, calls, ncall>>
+          /\ UNCHANGED <<size, shape, dflt, cache, sexp, spell, C, todo, out, calls, ncall>>
 KeepSome == \E k \in Keys : Keep(k)
 CallSome == \E k \in Keys \cup {<<>>} : Call(k)
 Next == Start \/ KeepSome \/ CallSome \/ Finish
@@ -126,7 +151,7 @@ AllDefaultIsUnion  == Fresh /\ ~AllScalar(C) /\ Strict(C) = {} =>
                          \A k \in Keys : k \in JoinKeys(C) <=> \E i \in Tables(C) : k \in Dom(C, i)
 DefaultNeverRemoves == Fresh /\ ~AllScalar(C) =>            \* giving one more input a default can only add keys
                          \A i \in Tables(C) : ~dflt[i] =>
-                            JoinKeys(C) \subseteq JoinKeys(MkCfg(shape, [dflt EXCEPT ![i] = TRUE], cache, sexp))
+                            JoinKeys(C) \subseteq JoinKeys(MkCfg(shape, [dflt EXCEPT ![i] = TRUE], cache, sexp, spell))
 RowValues == Fresh => LET rows == JoinRows(C, NK) IN
                  \A n \in 1..Len(rows) : \A i \in 1..NIn(C) :
                      rows[n].vals[i] = IF ~shape[i].t THEN Scal(i)                           \* scalars broadcast
@@ -141,6 +166,13 @@ ScalarsGiveF == Fresh /\ AllScalar(C) => /\ RunOutcomes(C, NK, TRUE) = {[kind |-
 CallsPlusKept == Fresh => Len(RunCalls(C, NK)) + Cardinality({k \in JoinKeys(C) : CachedPast(C, k)}) = Cardinality(JoinKeys(C))
 OnlyPastIsKept == Fresh => \A k \in JoinKeys(C) : CachedPast(C, k) <=> (k \in Keys /\ (cache[k] = "past" \/ (cache[k] = "absent" /\ sexp = "past")))
 MechanismIsLaw == Fresh => MechJoin(C) = JoinAsMap(C)
+\* the rows, their order, their values and the calls are those of the same call with every key spelt by one object everywhere
+SpellingIsNotKey == Fresh => /\ WellSpelled(C)
+                             /\ JoinKeys(C) = JoinKeys(Plain(C))
+                             /\ RunOutcomes(C, NK, TRUE) = RunOutcomes(Plain(C), NK, TRUE)
+                             /\ JoinOutcomes(C, NK, TRUE) = JoinOutcomes(Plain(C), NK, TRUE)
+                             /\ RunCalls(C, NK) = RunCalls(Plain(C), NK)
+                             /\ \A t \in 1..NTab(C) : \A k \in TableKeys(C, t) : \A u \in OtherSpellings(C, t, k) : spell[u] # spell[t]
 
 \* ---- the evaluation machine against the law ----------------------------------------------------
 Started == phase # "new"
@@ -154,13 +186,14 @@ FinalIsLaw   == phase = "done" => /\ DOMAIN out = JoinKeys(C)
                                   /\ SameBag(calls, RunCalls(C, NK))
 
 \* ---- generator: one line per configuration with everything the specification accepts ----------
-MapRows(m) == LET ks == SortedKeys(DOMAIN m, NK) IN [n \in 1..Len(ks) |-> [key |-> ks[n], v |-> m[ks[n]]]]
-InJson(x)  == [kind |-> x.kind, v |-> x.v, rows |-> MapRows(x.map)]
-OptMap(o)  == IF o = <<>> THEN [kind |-> "absent", rows |-> <<>>, v |-> None]
-              ELSE IF Len(o) = 2 THEN [kind |-> "scalar", rows |-> <<>>, v |-> o[2]]
-              ELSE [kind |-> "keyed", rows |-> MapRows(o[1]), v |-> None]
-CfgJson(c) == [nk |-> NK, ins |-> [i \in 1..NIn(c) |-> InJson(c.ins[i])], defs |-> c.defs,
-               data |-> OptMap(c.data), expiry |-> OptMap(c.expiry)]
+\* a row of a table: the key (denotation), how the table spells it, the value
+MapRows(m, sp) == LET ks == SortedKeys(DOMAIN m, NK) IN [n \in 1..Len(ks) |-> [key |-> ks[n], sp |-> sp[ks[n]], v |-> m[ks[n]]]]
+InJson(x, sp)  == [kind |-> x.kind, v |-> x.v, rows |-> MapRows(x.map, sp)]
+OptMap(o, sp)  == IF o = <<>> THEN [kind |-> "absent", rows |-> <<>>, v |-> None]
+                  ELSE IF Len(o) = 2 THEN [kind |-> "scalar", rows |-> <<>>, v |-> o[2]]
+                  ELSE [kind |-> "keyed", rows |-> MapRows(o[1], sp), v |-> None]
+CfgJson(c) == [nk |-> NK, ins |-> [i \in 1..NIn(c) |-> InJson(c.ins[i], c.spell[i])], defs |-> c.defs,
+               data |-> OptMap(c.data, c.spell[NIn(c) + 1]), expiry |-> OptMap(c.expiry, c.spell[NIn(c) + 2])]
 Case(c) == [c |-> CfgJson(c), size |-> size,
             \* what is accepted when `on` is rendered in alphabetical order of the column names / otherwise
             run |-> [alpha |-> SetToSeq(RunOutcomes(c, NK, TRUE)), other |-> SetToSeq(RunOutcomes(c, NK, FALSE))],
@@ -168,7 +201,7 @@ Case(c) == [c |-> CfgJson(c), size |-> size,
             calls |-> RunCalls(c, NK),
             nrows |-> Cardinality(JoinKeys(c)), nkept |-> Cardinality({k \in JoinKeys(c) : CachedPast(c, k)})]
 Gen == /\ phase = "new"
-       /\ LET c == MkCfg(shape, dflt, cache, sexp) IN InDomain(c) /\ PrintT(ToJson(Case(c)))
+       /\ LET c == MkCfg(shape, dflt, cache, sexp, spell) IN InDomain(c) /\ PrintT(ToJson(Case(c)))
        /\ phase' = "done"
-       /\ UNCHANGED <<size, shape, dflt, cache, sexp, C, todo, out, calls, ncall>>
+       /\ UNCHANGED <<size, shape, dflt, cache, sexp, spell, C, todo, out, calls, ncall>>
 =============================================================================
